@@ -5,6 +5,7 @@ import (
 	"io"
 	"math"
 	"runtime"
+	"sort"
 	"strings"
 	"sync"
 	"sync/atomic"
@@ -49,8 +50,35 @@ func c08Run(c *mon.Ctx, r *mon.Rand) {
 			opts.Reporter = pr
 		}
 	}
+	// every fifth shutdown configures both reporter kinds: deliveries, the final
+	// flush and the close must then all go to one and the same reporter
+	both := r.Chance(1, 5)
+	var recB *mon.Recorder
+	if both {
+		if cached {
+			pr := mon.NewPlainRec(true)
+			recB = pr.Recorder
+			if closerKind > 0 {
+				opts.Reporter = mon.PlainRecCloser{PlainRec: pr}
+			} else {
+				opts.Reporter = pr
+			}
+		} else {
+			cr := mon.NewCachedRec(true)
+			recB = cr.Recorder
+			if closerKind > 0 {
+				opts.CachedReporter = mon.CachedRecCloser{CachedRec: cr}
+			} else {
+				opts.CachedReporter = cr
+			}
+		}
+		recB.Src = 1
+	}
 	if closerKind == 2 {
 		rec.CloseErr = mon.ErrRecClose
+		if recB != nil {
+			recB.CloseErr = mon.ErrRecClose
+		}
 	}
 	interval := time.Duration(r.Range(100, 500)) * time.Microsecond
 	switch r.Intn(4) {
@@ -81,6 +109,9 @@ func c08Run(c *mon.Ctx, r *mon.Rand) {
 			time.Sleep(d)
 		}
 	}
+	if recB != nil {
+		recB.Delay = rec.Delay
+	}
 	prof := mon.RandomProfile(r, []int{tally.VerifPassBegin, tally.VerifPassLocked, tally.VerifCloseEnter, tally.VerifCloseBeforeFinal, tally.VerifCloseAfterFinal, tally.VerifRegScopeReported}, r.Intn(3))
 	switch r.Intn(4) {
 	case 0:
@@ -103,7 +134,7 @@ func c08Run(c *mon.Ctx, r *mon.Rand) {
 	defer tally.VerifSetHook(nil)
 	before := reportLoopGoroutines()
 	root, closer := vNewRoot(opts, interval, uint(r.Range(0, 4)))
-	desc := map[string]interface{}{"cached": cached, "closer": []string{"none", "ok", "errors"}[closerKind], "interval_us": interval.Microseconds(), "manual_passes": manual,
+	desc := map[string]interface{}{"cached": cached, "both_reporter_kinds_configured": both, "closer": []string{"none", "ok", "errors"}[closerKind], "interval_us": interval.Microseconds(), "manual_passes": manual,
 		"subscopes": nSub, "close_callers": nClosers, "slow_reporter_permille": slowProb, "slow_max_us": slowMax}
 	c.LogCase(fmt.Sprint(desc))
 	stopWatch := c.Watchdog(300*time.Second, "close-or-recorders-do-not-return", desc)
@@ -255,6 +286,31 @@ func c08Run(c *mon.Ctx, r *mon.Rand) {
 	c.Eval(1)
 	log, _, _ := rec.Snapshot()
 	bad := func(sig, why string) { c.Violation(sig, map[string]interface{}{"why": why, "case": desc}) }
+	if recB != nil {
+		recB.Delay = nil
+		logB, _, _ := recB.Snapshot()
+		log = append(log, logB...)
+		sort.Slice(log, func(i, j int) bool { return log[i].Seq < log[j].Seq })
+		var src [2]map[string]int
+		src[0], src[1] = map[string]int{}, map[string]int{}
+		for _, ev := range log {
+			switch ev.Kind {
+			case mon.EvCounter, mon.EvHistV, mon.EvHistD, mon.EvGauge:
+				if strings.HasPrefix(ev.Name, "tally.internal.") {
+					continue // the library hands its own cardinality gauges to both reporters
+				}
+				src[ev.Src]["deliveries"]++
+			case mon.EvFlush:
+				src[ev.Src]["flushes"]++
+			case mon.EvClose:
+				src[ev.Src]["closes"]++
+			}
+		}
+		if len(src[0]) > 0 && len(src[1]) > 0 {
+			bad("shutdown-split-over-both-reporters", fmt.Sprintf("both reporter kinds are configured: the first-configured-kind reporter saw %v, the other one %v - deliveries, final flush and close must go to one and the same reporter", src[0], src[1]))
+		}
+		c.Class("shutdowns-with-both-reporter-kinds", 1)
+	}
 	var firstCalled, firstReturned int64 = -1, -1
 	for _, ev := range log {
 		if ev.Kind == mon.EvMarker && ev.Marker == "close-called" && firstCalled < 0 {
